@@ -89,6 +89,11 @@ CLAIMED["C09"] = dict(
     text="Grammars and lexicons from random treebanks (counts > 1, fan-out > 1, shared linearization sequences, ambiguous / capitalised / non-ASCII words), raw or binarized left-to-right / optimal, deterministic or Markovized, are written by grammaroutput.pmcfg / rcg / lopar with and without lex_in_grammar in utf-8 and latin-1. Independent decoders must recover exactly the rules, linearizations, summed counts and word/tag counts; RCG files are additionally re-read with grammarinput.rcg; LoPar auxiliary files must list exactly the start symbols with their counts and the tag counts split by capitalisation; a non-context-free grammar must be refused without leaving files. The same through `treetools grammar` on export files, and with a written RCG grammar as the command's input.",
     note="Trusted: decoders in vlib/codecs_grammar.py; the in-memory grammar comes from the repository's extract/binarize (C06-C08). Fan-outs >= 10 (two-digit arity suffixes) are out of bounds.",
     ref="DESIGN.md section 2, C09")
+CLAIMED["C17"] = dict(
+    tech="exhaustive enumeration of split specifications x treebank sizes against integer reference arithmetic (+ malformed list); Hypothesis corpora through `treetools transform --split` with independent decoding of every part and comparison with the unsplit conversion",
+    text="Every specification of up to 3 parts (thorough 4) over {N#, N%, rest} with N from boundary sets, for treebank sizes 0..12 and 50/100/200/300 (thorough 0..60), and every single percentage 0..100 for sizes 0..300, is given to parse_split_specification and compared with integer arithmetic (absolute sizes exact, percentages rounded down, remainder to rest or the first largest part, sum = size, over-demand and malformed specifications rejected). Through the real command line, corpora of 0..7 sentences are split into every output format with and without filter_by_length: exactly k part files, each a complete file that the independent decoder and the repository's own reader accept, with the reference sizes, and their concatenation equals the decoded unsplit conversion.",
+    note="Trusted: reference arithmetic in checks/C17.py, decoders in vlib/codecs_tree.py. Rejection may use any exception; negative numbers are not generated.",
+    ref="DESIGN.md section 2, C17")
 PENDING_REASON = "check not built yet in this round (planned, see DESIGN.md section 6); not claimed until it is quiet on the unchanged tree"
 
 
